@@ -113,13 +113,6 @@ pub struct MultiCase {
     pub loads: Vec<(u16, u64)>,
 }
 
-/// Name under which the suspected finding "SstMultiBuilder accepts out-of-order input as the
-/// first entry of a new file" is excluded and counted until it is triaged.
-pub const MULTI_ORDER_AT_FILE_START: &str = "C10-multi-order-at-file-start";
-/// Name under which "an oversize offer that opens a new file which then receives no entry leaves
-/// an empty output file" is excluded and counted.
-pub const MULTI_EMPTY_FILE: &str = "C10-multi-empty-file-after-refused-offer";
-
 fn value_profile() -> BoxedStrategy<(&'static str, usize, BoxedStrategy<usize>)> {
     prop_oneof![
         // a few hundred bytes per entry: files of 4..20 entries at the smallest target size
@@ -177,7 +170,7 @@ impl Property for MultiRoundTrip {
         let mut o = Outcome::pass();
         let entries = &c.table.entries;
         let dir = ctx.fresh_dir("c10-multi");
-        let res = run_multi(ctx, c, &dir, &mut o);
+        let res = run_multi(c, &dir, &mut o);
         let _ = std::fs::remove_dir_all(&dir);
         match res {
             Ok(counts) => {
@@ -212,7 +205,7 @@ impl Property for MultiRoundTrip {
     }
 }
 
-fn run_multi(ctx: &Ctx, c: &MultiCase, dir: &std::path::Path, o: &mut Outcome) -> Result<Vec<usize>, (String, String)> {
+fn run_multi(c: &MultiCase, dir: &std::path::Path, o: &mut Outcome) -> Result<Vec<usize>, (String, String)> {
     let entries = &c.table.entries;
     let options = tables::sst_options(&c.opts).target_file_size(c.target_file_size).minimum_file_size(c.minimum_file_size);
     // the documented clamp of the option
@@ -245,17 +238,7 @@ fn run_multi(ctx: &Ctx, c: &MultiCase, dir: &std::path::Path, o: &mut Outcome) -
             let open = mb.approximate_size();
             let opens_file = open == 0 || open >= target || fresh_file_is_empty;
             if opens_file {
-                o.label(format!("invalid-offer-opens-a-file:{}", if open >= target { "after-roll" } else if fresh_file_is_empty { "after-refused-offer" } else if i == 0 { "first-offer" } else { "after-split-hint" }));
-            }
-            if !ctx.strict {
-                if bad.order && opens_file {
-                    o.excluded.push(MULTI_ORDER_AT_FILE_START.to_string());
-                    continue;
-                }
-                if !bad.order && opens_file && i == entries.len() {
-                    o.excluded.push(MULTI_EMPTY_FILE.to_string());
-                    continue;
-                }
+                o.label(format!("{}-violation-as-first-entry-of-a-file:{}", if bad.order { "order" } else { "size" }, if open >= target { "after-roll" } else if fresh_file_is_empty { "after-refused-offer" } else if i == 0 { "first-offer" } else { "after-split-hint" }));
             }
             let via = if bad.value.is_some() { "put" } else { "del" };
             let res = match bad.value.as_deref() {
@@ -381,7 +364,7 @@ impl Property for BoundarySizes {
         let mut o = Outcome::pass();
         o.label(format!("builder:{:?}", c.which));
         let dir = ctx.fresh_dir("c10-sizes");
-        let res = run_sizes(ctx.strict, c, &dir, &mut o);
+        let res = run_sizes(c, &dir, &mut o);
         let _ = std::fs::remove_dir_all(&dir);
         if let Err((sig, msg)) = res {
             o.fail(sig, msg);
@@ -416,7 +399,7 @@ impl AnyBuilder {
     }
 }
 
-fn run_sizes(strict: bool, c: &SizeCase, dir: &std::path::Path, o: &mut Outcome) -> Verdict {
+fn run_sizes(c: &SizeCase, dir: &std::path::Path, o: &mut Outcome) -> Verdict {
     let universe = gens::universe(c.table.family, 30);
     let mut all: Vec<Entry> = c.table.entries.clone();
     let mut long_keys: Vec<Vec<u8>> = vec![];
@@ -476,14 +459,9 @@ fn run_sizes(strict: bool, c: &SizeCase, dir: &std::path::Path, o: &mut Outcome)
             o.label("value-of-exactly-MAX_VALUE_LEN");
         }
         let before = b.size();
-        // An offer that opens a new file of the multi builder and is refused leaves that file open
-        // (and empty if nothing follows): the size comparison is meaningful only for an open file.
+        // The multi builder may open or roll a file before it looks at the entry: the size
+        // comparison is made only where the offer goes to a file that is open and not full.
         let multi_opens_file = matches!(c.which, Which::Multi) && (before == 0 || before >= 4096);
-        if !strict && want.is_some() && multi_opens_file && all[i + 1..].iter().all(|l| too_big(l).is_some()) {
-            // the refused offer would open a file that never receives an entry
-            o.excluded.push(MULTI_EMPTY_FILE.to_string());
-            continue;
-        }
         let res = b.offer(e);
         match (want, res) {
             (None, Ok(())) => accepted.push(e.clone()),
